@@ -16,6 +16,18 @@ P = {
          "TLA+ reference encoder/decoder as the format definition; byte-for-byte replay of TLC-enumerated encodings (all legal forms) into the library",
          "Enc in spec/Codec.tla is the wire format, written from the format documentation and anchored to Scala-produced bytes; the library's bytes must equal it on every enumerated case and every alternative legal form (unknown-length sequences, chunked tuples, any hash order) must decode to the value.",
          "the specification is the reference; independence from the code rests on the golden file, the pinned Point vector and the documentation"),
+ "C02": (True, "translation_validation", "6 C02",
+         "TLC enumerates declarations (MC_Decl.tla) and checks mechanism = documented procedure on the spec; each declaration is compiled through the real derive macro and its behaviour compared with the specification's interpretation of the same declaration",
+         "translation validation of the macro expansion: >1000 declarations (struct shapes x transient subsets x Option spellings x evolution annotations x nesting/recursion x special field names; enums x shapes x transient x sorted x variant evolution), every value over 2-point field domains: bytes, decoded value (transient reset), self-delimitation, prefix rejection.",
+         "declaration universe bounded as in spec/MC_Decl.tla; tools/gen_decl.py trusted"),
+ "C13": (True, "translation_validation", "6 C13",
+         "TLC invariants CtorIdentity / ExtensionSafe / UnknownCtorErr on MC_Decl.tla; enum pairs (E, E') generated as separate derived Rust types and replayed",
+         "all enums of 1-3 variants over unit/tuple/struct shapes x transient placement x sorted/unsorted (names chosen so sorting permutes), all extensions by 1-2 later constructors (appended; for sorted enums also declared first), all indices >= n incl. 127, 128, 2^28, 2^32-1: decoded by the other definition / must be the dedicated errors.",
+         "bounded enum universe; error classes compared through the harness' error-class map"),
+ "C14": (True, "translation_validation", "6 C14",
+         "TLC invariants TransientInvisible / TransientCtorErr on MC_Decl.tla and histories ending in FieldMadeTransient in MC_Evo.tla; derived types generated and replayed",
+         "transient fields at every non-empty subset of positions with two different non-default values (bytes must be identical and equal to the spec's, decode must give the declared default); transient constructors at every index (SerializingTransientConstructor naming type and constructor); made-optional-then-transient declarations encode.",
+         "bounded declaration universe"),
  "C03": (True, "model_checking", "6 C03",
          "TLA+ Adt.tla: TLC enumerates all legal evolution histories and checks mechanism (header/chunks/regions) = documented outcome; each history is rendered as derive inputs (one Rust type per version) and every (writer, reader, value, embedding) case replayed",
          "every legal history up to 2 steps (quick) / 3 steps (thorough) from every initial record of 1-2 fields, all version pairs, all values, four embeddings (top level, in a tuple, in a chunk, in a vector in a chunk); expected outcome computed by the specification's Expected operator written from the documentation; vacuity guards: dropping the legality rule or the DESIGN-9 exclusion makes TLC fail.",
